@@ -147,7 +147,8 @@ def check_program(prog, tier, part):
     info["nested_defs"], info["nested_classes"] = direct_nested(prog)
     part["counters"]["programs"] += 1
     words = set(re.findall(r"[A-Za-z_][A-Za-z_0-9]*", prog.src))
-    names = sorted(info["symbols"]) + FRESH
+    # one absent name first: the valid activations that follow run on a function that has refused one
+    names = FRESH[:1] + sorted(info["symbols"]) + FRESH[1:]
     metas = METAS_OK + METAS_BAD + [f"#loop_{v}" for v in info["loopvars"]] + [f"#endloop_{v}" for v in info["loopvars"]]
     w = C.get_world(prog, info, "inst")
     C.fresh(w, info)
@@ -182,7 +183,13 @@ def check_program(prog, tier, part):
             case = {"src": prog.src, "forms": list(prog.forms), "name": name}
             vio = violation(PROP, bad[0], case, bad[1], tags=["class:" + label])
             C.attribute(PROP, vio, prog, part, lambda p2: True)
-        if world.clean_state_problems(w.f, w.orig_code):
+        unclean = world.clean_state_problems(w.f, w.orig_code)
+        if unclean and res[0] == "refused" and not bad:
+            case = {"src": prog.src, "forms": list(prog.forms), "name": name}
+            vio = violation(PROP, "refusal-left-traces:" + label, case,
+                            f"'f > {name}' ({label}) was refused, but not before anything ran: " + "; ".join(unclean)[:300], tags=["class:" + label])
+            C.attribute(PROP, vio, prog, part, lambda p2: True)
+        if unclean:
             part["counters"]["world-rebuilt-unclean"] += 1
             C.discard_world(prog, "inst")
             world.reset_context()
